@@ -82,8 +82,12 @@ func (f *FnEnc) safety(kind string, guard, formula string, pos token.Pos) {
 	if formula == "true" {
 		return
 	}
+	var watch []WatchTerm
+	for name, v := range f.params {
+		watch = append(watch, WatchTerm{Text: name, Terms: v.L})
+	}
 	f.c.oblige(Item{Guard: guard, Formula: formula, Name: f.obName("safe", fmt.Sprintf("%s#%d", kind, n)), Class: "safe", Pos: f.pos(pos),
-		Text: kind})
+		Text: kind, Replay: f.replayInfo(nil, nil), Watch: watch})
 	// once checked, later obligations may rely on it (standard)
 }
 
